@@ -112,16 +112,101 @@ Ltac bf_step :=
   | |- Forall _ (_ ++ _) => apply Forall_app; split
   end.
 
-Lemma fhead_brace_free l hd n h : fhead l hd n h -> brace_free hd.
+Lemma plains_brace_free ps : forallb plain ps = true -> brace_free ps.
 Proof.
-  intros H. destruct H; unfold brace_free; repeat bf_step;
-    try (apply groups_brace_free; assumption);
-    try (apply clause_brace_free; assumption);
-    try (apply type_seq_brace_free; assumption);
+  intros H. apply Forall_forall. intros t Ht. rewrite forallb_forall in H. apply plain_nb. apply H. exact Ht.
+Qed.
+
+(* parameter lists with flat brace groups *)
+Lemma inner_binner g : inner g -> forall ok, binner ok g.
+Proof.
+  induction 1 as [|t r Ht Hr IH|o g c r Ho Hg IHg Hc Hr IHr]; intros ok.
+  - apply bi_nil.
+  - apply bi_plain; [exact Ht | apply IH].
+  - apply bi_group; [exact Ho | apply IHg | exact Hc | apply IHr].
+Qed.
+
+Lemma group_bgroup g : group g -> bgroup g.
+Proof. intros [o g' c Ho Hg Hc]. apply bgroup_intro; [exact Ho | apply inner_binner; exact Hg | exact Hc]. Qed.
+
+Lemma groups_bgroups gs : groups gs -> bgroups gs.
+Proof.
+  induction 1 as [g Hg|g r Hg Hr IH]; [apply bgroups_one, group_bgroup, Hg|].
+  apply bgroups_more; [apply group_bgroup, Hg | exact IH].
+Qed.
+
+Lemma nb_balanced t : nb t -> balanced [t].
+Proof. intros [H1 H2]. apply balanced_single; assumption. Qed.
+
+Lemma binner_balanced ok g : binner ok g -> balanced g.
+Proof.
+  induction 1 as [ok|ok t r Ht Hr IH|ok o g c r Ho Hg IHg Hc Hr IHr|o flat c r Ho Hflat Hc Hr IH].
+  - apply balanced_nil.
+  - change (t :: r) with ([t] ++ r). apply balanced_app; [apply nb_balanced, plain_nb, Ht | exact IH].
+  - change (o :: g ++ c :: r) with ([o] ++ g ++ [c] ++ r).
+    apply balanced_app; [apply nb_balanced; split; [apply lparen_not_lbrace | apply lparen_not_rbrace]; exact Ho|].
+    apply balanced_app; [exact IHg|].
+    apply balanced_app; [apply nb_balanced; split; [apply rparen_not_lbrace | apply rparen_not_rbrace]; exact Hc | exact IHr].
+  - replace (o :: flat ++ c :: r) with ((o :: flat ++ [c]) ++ r) by (norm_app; reflexivity).
+    apply balanced_app; [|exact IH]. apply balanced_block; try assumption.
+    apply brace_free_balanced, plains_brace_free, Hflat.
+Qed.
+
+Lemma bgroup_balanced g : bgroup g -> balanced g.
+Proof.
+  intros [o g' c Ho Hg Hc]. change (o :: g' ++ [c]) with ([o] ++ g' ++ [c]).
+  apply balanced_app; [apply nb_balanced; split; [apply lparen_not_lbrace | apply lparen_not_rbrace]; exact Ho|].
+  apply balanced_app; [eapply binner_balanced; exact Hg|].
+  apply nb_balanced; split; [apply rparen_not_lbrace | apply rparen_not_rbrace]; exact Hc.
+Qed.
+
+Lemma bgroups_balanced gs : bgroups gs -> balanced gs.
+Proof.
+  induction 1 as [g Hg|g r Hg Hr IH]; [apply bgroup_balanced, Hg|].
+  apply balanced_app; [apply bgroup_balanced, Hg | exact IH].
+Qed.
+
+Ltac bal_step :=
+  match goal with
+  | |- balanced [] => apply balanced_nil
+  | |- balanced [?x] => apply nb_balanced
+  | |- balanced (?x :: ?r) => change (x :: r) with ([x] ++ r); apply balanced_app
+  | |- balanced (_ ++ _) => apply balanced_app
+  end.
+
+(* a head is brace-balanced (its parameter groups may contain flat brace groups) *)
+Lemma fhead_balanced l hd n h : fhead l hd n h -> balanced hd.
+Proof.
+  intros H. destruct H; repeat bal_step;
+    try (apply bgroups_balanced; assumption);
+    try (apply brace_free_balanced, groups_brace_free; assumption);
+    try (apply brace_free_balanced, clause_brace_free; assumption);
+    try (apply brace_free_balanced, type_seq_brace_free; assumption);
     try (apply name_nb; assumption);
     try (eapply kw_nb; eassumption);
     try (eapply operator_nb; eassumption);
     try (apply arrow_nb; assumption).
+Qed.
+
+(* after the recognised shape (throws clause, return type) there is no brace *)
+Lemma fhead_tail l hd n h : fhead l hd n h -> exists A T, hd = A ++ T /\ length A = h /\ brace_free T.
+Proof.
+  intros H. destruct H as [nm gs Hcf Hnm Hgs | nm gs thr clause HJ Hnm Hgs Hthr Hcl | nm gs Hjs Hnm Hgs | fk nm gs Hjs Hfk Hnm Hgs
+                  | nm gs colon ty HT Hnm Hgs Hco Hty | fk nm gs colon ty HT Hfk Hnm Hgs Hco Hty
+                  | nm eq gs arrow | nm eq ak gs arrow | ck nm eq gs arrow | ck nm eq ak gs arrow].
+  - exists (nm :: gs), []. split; [rewrite app_nil_r; reflexivity|]. split; [reflexivity | constructor].
+  - exists (nm :: gs), (thr :: clause). split; [reflexivity|]. split; [reflexivity|].
+    constructor; [eapply kw_nb; exact Hthr | apply clause_brace_free; exact Hcl].
+  - exists (nm :: gs), []. split; [rewrite app_nil_r; reflexivity|]. split; [reflexivity | constructor].
+  - exists (fk :: nm :: gs), []. split; [rewrite app_nil_r; reflexivity|]. split; [reflexivity | constructor].
+  - exists (nm :: gs), (colon :: ty). split; [reflexivity|]. split; [reflexivity|].
+    constructor; [eapply operator_nb; exact Hco | apply type_seq_brace_free; exact Hty].
+  - exists (fk :: nm :: gs), (colon :: ty). split; [reflexivity|]. split; [reflexivity|].
+    constructor; [eapply operator_nb; exact Hco | apply type_seq_brace_free; exact Hty].
+  - exists (nm :: eq :: gs ++ [arrow]), []. split; [rewrite app_nil_r; reflexivity|]. split; [norm_len; lia | constructor].
+  - exists (nm :: eq :: ak :: gs ++ [arrow]), []. split; [rewrite app_nil_r; reflexivity|]. split; [norm_len; lia | constructor].
+  - exists (ck :: nm :: eq :: gs ++ [arrow]), []. split; [rewrite app_nil_r; reflexivity|]. split; [norm_len; lia | constructor].
+  - exists (ck :: nm :: eq :: ak :: gs ++ [arrow]), []. split; [rewrite app_nil_r; reflexivity|]. split; [norm_len; lia | constructor].
 Qed.
 
 Lemma fhead_offsets l hd n h : fhead l hd n h -> n < h /\ h <= length hd.
